@@ -5,7 +5,7 @@ import z3
 
 from eqlvc import z as Z
 from eqlvc.interp import ZV, C, D, Obj, Ref, NONE, OutOfSubset
-from .interface import EvalContract, child_shape, tree_shape, MapRel, LeafIds, total, WD
+from .interface import EvalContract, child_shape, tree_shape, subtree_is, MapRel, LeafIds, total, WD
 
 
 class DomainMappingEval(EvalContract):
@@ -20,7 +20,8 @@ class DomainMappingEval(EvalContract):
 
     def shape_facts(self, n):
         c = Z.f_child(n)
-        return child_shape(n, c) + [z3.Not(Z.cond_pos(c)), Z.is_value(c), Z.is_value(n), z3.Not(Z.truth_node(n))]
+        return child_shape(n, c) + [z3.Not(Z.cond_pos(c)), Z.is_value(c), Z.is_value(n), z3.Not(Z.truth_node(n)),
+                                    subtree_is(n, [c])]
 
     def children(self, n):
         return [Z.f_child(n)]
@@ -57,6 +58,7 @@ class ComparatorEval(EvalContract):
         l, r = Z.f_left(n), Z.f_right(n)
         return (child_shape(n, l) + child_shape(n, r) + tree_shape(l, r) +
                 [z3.Not(Z.cond_pos(l)), z3.Not(Z.cond_pos(r)), Z.is_value(l), Z.is_value(r), Z.is_value(n),
+                 subtree_is(n, [l, r]),
                  Z.truth_node(n)])   # a comparator always filters by its own truth
 
     def den(self, n, rho):
@@ -115,6 +117,23 @@ class ElseIfEval(EvalContract):
     def den(self, n, rho):
         return z3.Or(Z.Den(Z.f_left(n), rho), Z.Den(Z.f_right(n), rho))
 
+    trusted = ("T4: the `if not any_left` fallback (left operand delivered no row at all, i.e. one of its variables has an "
+               "empty domain) yields the right row without merging sigma; clause R6 is waived for that yield only",)
+
+    def r6_waived(self, eng, st, ordinal, node):
+        # the yield that is lexically inside `if not any_left:`
+        return any(p.startswith('L') and p.endswith('if+') and self._is_not_any_left(eng, p) for p in st.path)
+
+    def _is_not_any_left(self, eng, plabel):
+        import ast as _ast
+        ln = int(plabel[1:-3])
+        for x in _ast.walk(eng.fdef):
+            if isinstance(x, _ast.If) and x.lineno == ln:
+                t = x.test
+                return (isinstance(t, _ast.UnaryOp) and isinstance(t.op, _ast.Not) and isinstance(t.operand, _ast.Name)
+                        and t.operand.id == 'any_left')
+        return False
+
     def loop_invariant(self, eng, st, ordinal, iterated):
         if ordinal == 1 and 'any_left' in st.locals:
             return eng.to_z3_bool(eng.truth(st, st.locals['any_left'])) == iterated
@@ -142,7 +161,7 @@ class VariablePlainEval(EvalContract):
                "class invariant: a plain variable never writes its own _is_false_ (scan of symbolic.Variable)")
 
     def shape_facts(self, n):
-        return [Z.is_value(n), dom_truthy(n), z3.Not(Z.truth_node(n))]
+        return [Z.is_value(n), dom_truthy(n), z3.Not(Z.truth_node(n)), subtree_is(n, [])]
 
     def setup(self, eng):
         sts = super().setup(eng)
